@@ -1,6 +1,7 @@
 import Driver.Util
 import ZvbiModel.Export.Model
 import ZvbiModel.Export.Page
+import ZvbiModel.Export.Text
 /-! Model driver for component `export` (C16); same line protocol as harness/export_harness.c -/
 namespace Zvbi.Driver.Export
 open Zvbi.Driver Zvbi.Export
@@ -68,6 +69,9 @@ def runEnd (s : Session) : String :=
     let r := exportStdio cfg s.env ops
     let tr := traceOf cfg s.env (Zvbi.Export.init .fp [] false) ops
     s!"ok fp ret={if r.ok then 1 else 0} sink={toHex (r.sink.getD [])} trace={tr}{faultStr r.st.fault}"
+  else if s.target == "filebad" then
+    let r := exportFileNoOpen
+    s!"ok filebad ret={if r.ok then 1 else 0} sink=unlinked trace=-"
   else
     let r := exportFile cfg s.env ops
     let tr := traceOf cfg s.env (Zvbi.Export.init .file [] false) ops
@@ -166,7 +170,7 @@ def step (st : DSt) (ws : List String) : DSt × String :=
         else match parseInt sz with
           | some n => if inRange n 0 1048576 then some (some n.toNat) else none
           | none => none
-      match ["mem", "alloc", "fp", "file"].contains t, szv, parseInt hl, parseInt sl with
+      match ["mem", "alloc", "fp", "file", "filebad"].contains t, szv, parseInt hl, parseInt sl with
       | true, some u, some h, some s =>
         if h < 0 || s < 0 then (st, "rej parse")
         else if st.sess.isSome then (st, "rej state")
@@ -219,7 +223,9 @@ def step (st : DSt) (ws : List String) : DSt × String :=
         if inRange r 1 25 && inRange c 1 41 && r * c ≤ 1056 && inRange f 0 0xFFFF then
           ({ st with page := some { rows := r.toNat, columns := c.toNat,
                                     text := List.replicate textExtent { unicode := f.toNat, size := 0 },
-                                    drcs := List.replicate 32 false } }, "ok page")
+                                    drcs := List.replicate 32 false,
+                                    colorMap := (List.range 40).map fun i =>
+                                      0xFF000000 + ((i * 37 + 11) % 256) * 65536 + ((i * 91 + 5) % 256) * 256 + ((i * 53 + 200) % 256) } }, "ok page")
         else (st, "rej parse")
       | _, _, _ => (st, "rej parse"))
     | _ => (st, "rej parse"))
@@ -236,7 +242,8 @@ def step (st : DSt) (ws : List String) : DSt × String :=
         if g 0 ≥ pg.rows || g 1 ≥ pg.columns then (st, "rej parse") else
         let i := (g 0).toNat * pg.columns + (g 1).toNat
         let fl := (g 4).toNat
-        let c : Cell := { unicode := (g 2).toNat, size := (g 3).toNat, flash := (fl / 8) % 2 == 1, conceal := (fl / 16) % 2 == 1 }
+        let c : Cell := { unicode := (g 2).toNat, size := (g 3).toNat, flash := (fl / 8) % 2 == 1, conceal := (fl / 16) % 2 == 1,
+                          underline := fl % 2 == 1, bold := (fl / 2) % 2 == 1, foreground := (g 5).toNat, background := (g 6).toNat }
         ({ st with page := some { pg with text := pg.text.set i c } }, "ok cell"))
   | "drcs" :: rest =>
     (match rest with
@@ -257,6 +264,24 @@ def step (st : DSt) (ws : List String) : DSt × String :=
     else (st, "rej op")
   | "print" :: _ => (st, "rej parse")
   | "printnt" :: _ => (st, "rej parse")
+  | "textexp" :: rest =>
+    (match rest with
+    | [fmt, gfx, ctl] =>
+      (match parseInt gfx, parseInt ctl with
+      | some g, some c =>
+        if !(inRange g 10 99999) || gfx.startsWith "0" || !(inRange c 0 2) || !(knownFormats.contains fmt) then (st, "rej parse") else
+        (match st.page with
+        | none => (st, "rej state")
+        | some pg =>
+          match textOps currentCfg (conv fmt) c.toNat (gfxOption g.toNat) pg with
+          | .error f => (st, s!"ok FAULT {repr f}")
+          | .ok (_, false) => (st, "ok fail")
+          | .ok (ops, true) =>
+            match (exportAlloc currentCfg .unlimited ops).data with
+            | some d => (st, s!"ok {d.length} {toHex d}")
+            | none => (st, "ok fail"))
+      | _, _ => (st, "rej parse"))
+    | _ => (st, "rej parse"))
   | "export" :: rest =>
     (match rest with
     | [spec] =>
